@@ -127,6 +127,9 @@ def build_mesh(spec):
     except ValueError as exc:
         if "Malformed Voronoi" in str(exc):
             return None, "refused: malformed voronoi"
+        if "Points cannot contain NaN" in str(exc):
+            # a degenerate (zero-area) triangle gives a NaN circumcentre; qhull then refuses the cell
+            return None, "refused: degenerate triangle (NaN circumcentre)"
         raise
     raise ValueError(kind)
 
